@@ -89,7 +89,7 @@ def get_index(path):
     return _idx_cache[path]
 
 
-def run_verus(unit, expanded, must_fail=False):
+def run_verus(unit, expanded, must_fail=False, sub="common"):
     """Render and verify one unit; returns dict with per-function results."""
     idx = get_index(expanded)
     tmpl = os.path.join(ROOT, "units", unit + ".rs.tmpl")
@@ -97,7 +97,7 @@ def run_verus(unit, expanded, must_fail=False):
         text, table, linemap = rxtract.render_unit(idx, tmpl, ROOT, must_fail=must_fail)
     except (KeyError, rxtract.ExtractError, ValueError) as e:
         raise Undecided("unit %s: extraction failed: %s" % (unit, e))
-    udir = os.path.join(WORK, "units")
+    udir = os.path.join(WORK, "units", sub)
     os.makedirs(udir, exist_ok=True)
     name = unit + ("_mustfail" if must_fail else "")
     path = os.path.join(udir, name + ".rs")
@@ -195,10 +195,10 @@ def check_property(pid, tier, seed):
     results = []
     undecided = []
     with cf.ThreadPoolExecutor(max_workers=6) as ex:
-        futs = {ex.submit(run_verus, u, expanded): u for u in units}
+        futs = {ex.submit(run_verus, u, expanded, False, pid): u for u in units}
         mf = {}
         if tier == "thorough" or spec.get("must_fail_quick", True):
-            mf = {ex.submit(run_verus, u, expanded, True): u for u in units}
+            mf = {ex.submit(run_verus, u, expanded, True, pid): u for u in units}
         for f in list(futs):
             try:
                 results.append(f.result())
@@ -263,7 +263,7 @@ def check_property(pid, tier, seed):
             if row.get("notwin"):
                 continue
             twins_generated += 1
-            if row["item"] in rejected:
+            if (row["item"] + " [twin]") in rejected or (not row.get("has_twin") and row["item"] in rejected):
                 twins_rejected += 1
             else:
                 undecided.append("vacuity guard: `ensures false` twin of %s/%s was NOT rejected" % (r["unit"], row["item"]))
